@@ -5,7 +5,8 @@
    Hypotheses found necessary:
    - the suffix of the family is not "gz" and does not end with ".gz" (sfx_ok; otherwise plain files are taken for
      archives, see the examples at the end of NumCleanupRun.v);
-   - all indices are below 100000 (N.of_nat L <= 100000): the listing is sorted by name, and "r100000" sorts before "r99999". *)
+   There is no bound on the indices: the sort key of the listing reads the number behind the last "_r" of the name (with an
+   empty fixed name part: behind the leading "r") and compares it numerically. *)
 Require Import FL.Base.Bytes FL.Base.BytesFacts FL.Base.PathName FL.Fs.Fs FL.Fs.FsFacts FL.Time.Civil FL.Time.TsFormat
   FL.Names.FileSpec FL.Names.NamesFacts FL.Names.SortFacts FL.Names.FamilyFacts FL.Flw.Model FL.Flw.ModelFacts FL.Flw.NumFs
   FL.Flw.NumInv FL.Flw.Run FL.Flw.NumRun FL.Flw.NumListing FL.Flw.CleanupFacts.
@@ -165,31 +166,31 @@ Proof.
 Qed.
 
 Lemma stem_key_number (F : bytes) i : stem_key (F ++ r_char :: digs i) = (F ++ r_char :: digs i, None).
-Proof.
-  unfold stem_key. set (B := F ++ r_char :: digs i).
-  destruct (find_last_sub restart_tag B) as [ix|] eqn:E; [|reflexivity]. cbv zeta.
-  destruct (forallb is_digit (skipn (ix + 9) B)) eqn:D; [exfalso | rewrite andb_false_r; reflexivity].
-  apply find_last_sub_prefix in E.
-  assert (S : strip_prefix restart_tag (skipn ix B) = Some (skipn 9 (skipn ix B))) by (unfold strip_prefix; rewrite E; reflexivity).
-  apply strip_prefix_spec in S. rewrite skipn_skipn', forallb_is_digit in *.
-  assert (X : B = (firstn ix B ++ [46; 114; 101; 115; 116; 97; 114; 116]%N) ++ 45%N :: skipn (ix + 9) B).
-  { rewrite <- (firstn_skipn ix B) at 1. rewrite S at 1. rewrite <- app_assoc. reflexivity. }
-  unfold B in X at 1.
-  pose proof (last_nondigit_unique _ _ _ _ r_char 45%N (digs_all i) D eq_refl eq_refl X) as Y. discriminate Y.
-Qed.
+Proof. apply (stem_key_tail _ F r_char (digs i)); [reflexivity | apply digs_all | reflexivity | discriminate]. Qed.
 
 Definition number_stem (c : config) (i : nat) : bytes := under (fixed0 c) ++ r_char :: digs (N.of_nat i).
 
 Lemma rname_with_suffix c i : rname c i = with_suffix (c_spec c) (number_stem c i).
 Proof. unfold rname, nm. rewrite FamilyFacts.as_name_some by apply number_infix_nonempty. reflexivity. Qed.
 
+(* the key of a number name: no restart counter; the main part and the number as main_key splits them *)
 Lemma sort_key_number c i (g : bool) : sfx_ok (c_spec c) ->
-  sort_key (fsfx (c_spec c)) (add_gz g (rname c i)) = (number_stem c i, None).
+  sort_key (fsfx (c_spec c)) (add_gz g (rname c i)) = plain_key (number_stem c i).
 Proof.
   intros H. rewrite sort_key_stem, rname_with_suffix, sk_stem_with_suffix.
-  - apply stem_key_number.
+  - unfold full_key, plain_key, number_stem. rewrite stem_key_number. reflexivity.
   - rewrite <- rname_with_suffix. apply rname_no_gz. exact H.
 Qed.
+
+(* the part up to the "r" of the infix, and the number without leading zeros *)
+Definition number_key (i : nat) : option (nat * bytes) :=
+  Some (length (drop_zeros (digs (N.of_nat i))), drop_zeros (digs (N.of_nat i))).
+
+Lemma digs_nonempty i : digs i <> [].
+Proof. destruct (digs_cons i) as (a & b & r & E & _). rewrite E. discriminate. Qed.
+
+Lemma main_key_number_stem c i : main_key (number_stem c i) = (under (fixed0 c) ++ [r_char], number_key i).
+Proof. unfold number_stem, number_key. apply main_key_number_under; [apply digs_nonempty | apply digs_all]. Qed.
 
 Lemma add_gz_gname c i : add_gz true (rname c i) = gname c i.
 Proof. rewrite gname_app. reflexivity. Qed.
@@ -219,13 +220,22 @@ Proof.
   apply (f_equal dec_value) in E. rewrite !digs_value in E. lia.
 Qed.
 
-(* names of the family (plain or archive, mixed) are ordered by their index *)
-Lemma key_le_number c i j (g1 g2 : bool) : sfx_ok (c_spec c) -> i < j -> (N.of_nat j < 100000)%N ->
+(* names of the family (plain or archive, mixed) are ordered by their index: by the NUMBER, no bound on the index *)
+Lemma key_le_number_any c i j (g1 g2 : bool) : sfx_ok (c_spec c) -> i < j ->
   key_le (fsfx (c_spec c)) (add_gz g1 (rname c i)) (add_gz g2 (rname c j)) = true.
 Proof.
-  intros H Hij Hj. unfold key_le. rewrite !sort_key_number by exact H.
-  destruct (number_stem_lt c i j Hij Hj) as [L B]. rewrite B. exact L.
+  intros H Hij. pose proof (sort_key_number c i g1 H) as Ei. pose proof (sort_key_number c j g2 H) as Ej.
+  unfold plain_key in Ei, Ej. rewrite (main_key_number_stem c i) in Ei. rewrite (main_key_number_stem c j) in Ej.
+  cbn [fst snd] in Ei, Ej.
+  destruct (rkey_digits_lt (drop_zeros (digs (N.of_nat i))) (drop_zeros (digs (N.of_nat j)))) as [L12 [_ Q]];
+    try (apply drop_zeros_all_digits, digs_all); try (intros r; apply drop_zeros_head);
+    [rewrite !drop_zeros_value, !digs_value; lia|].
+  rewrite (key_le_by_nkey _ _ _ _ _ _ _ _ Ei Ej Q). exact L12.
 Qed.
+
+Lemma key_le_number c i j (g1 g2 : bool) : sfx_ok (c_spec c) -> i < j -> (N.of_nat j < 100000)%N ->
+  key_le (fsfx (c_spec c)) (add_gz g1 (rname c i)) (add_gz g2 (rname c j)) = true.
+Proof. intros H Hij _. apply key_le_number_any; [exact H | exact Hij]. Qed.
 
 (* ------------------------------------------------------------------ lists *)
 Lemma filter_rev' {A} (p : A -> bool) l : filter p (rev l) = rev (filter p l).
@@ -301,7 +311,6 @@ Definition listing (c : config) (lo mid L : nat) : list bytes :=
 Section Listing.
 Variables (c : config) (f : fs) (off : Z) (lo mid L : nat).
 Hypothesis Hsfx : sfx_ok (c_spec c).
-Hypothesis HL : (N.of_nat L <= 100000)%N.
 Hypothesis DS : dir_shape c f lo mid L.
 
 Let sfx := fsfx (c_spec c).
@@ -321,7 +330,7 @@ Proof.
   - intros x y. apply key_le_antisym.
   - apply StronglySorted_filter, S_sorted.
   - apply StronglySorted_map_seq. intros i j Hi Hij Hj. unfold key_rel, sfx.
-    apply (key_le_number c i j false false Hsfx Hij). lia.
+    apply (key_le_number_any c i j false false Hsfx Hij).
   - apply NoDup_filter, S_nodup.
   - apply FinFun.Injective_map_NoDup; [intros i j E; exact (rname_inj _ _ _ E) | apply seq_NoDup].
   - intros x. rewrite filter_In, S_in, in_map_iff. split.
@@ -343,7 +352,7 @@ Proof.
   - intros x y. apply key_le_antisym.
   - apply StronglySorted_filter, S_sorted.
   - apply StronglySorted_map_seq. intros i j Hi Hij Hj. unfold key_rel, sfx. rewrite <- !add_gz_gname.
-    apply (key_le_number c i j true true Hsfx Hij). pose proof (ds_le _ _ _ _ _ DS). lia.
+    apply (key_le_number_any c i j true true Hsfx Hij).
   - apply NoDup_filter, S_nodup.
   - apply FinFun.Injective_map_NoDup; [intros i j E; exact (gname_inj _ _ _ E) | apply seq_NoDup].
   - intros x. rewrite filter_In, S_in, in_map_iff. split.
